@@ -43,12 +43,18 @@ pid, name, ok, suite, dwo, dw, fired, silent = sys.argv[1:9]
 notes = ""
 try: notes = open("/verif/seeded/%s/NOTES.md" % name).read()
 except Exception: pass
+def needs(notes):
+    # the paragraph(s) of the sub-agent's NOTES.md that say what the change needs in order to show
+    paras = [p.strip() for p in notes.split("\n\n") if p.strip()]
+    hit = [p for p in paras if "manifest" in p.lower() or "needs" in p.lower() or "trigger" in p.lower()]
+    text = " ".join(hit) if hit else " ".join(paras[:2])
+    return " ".join(text.split())[:1500] or "see NOTES.md"
 meta = {
   "property_broken": pid,
   "name": name,
   "repo_commit": subprocess.run(["git","-C","/repo","rev-parse","--short","HEAD"],capture_output=True,text=True).stdout.strip(),
   "confirmed": ok == "1",
-  "what_it_needs_to_manifest": "see NOTES.md (written by the independent sub-agent that produced the change)",
+  "what_it_needs_to_manifest": needs(notes),
   "what_was_run": {
     "repository_suite_with_change": suite,
     "demonstration_without_change": dwo,
